@@ -329,13 +329,13 @@ def mon_c12(run, case, stmts):
                 break
         # every retry decision -> a RETRY record with delay max(1, d), accepted; a decline -> FAIL recorded
         retry_recs = [e for e in log if e["upd"]["Action"] == "RETRY"]
-        decided = [c for c in calls if c["retry"]]
-        for c, e in zip(decided, retry_recs):
+        for e in retry_recs:
+            prev = [c for c in calls if c["clk"] < e.get("clk", 0)]
             d = (e["upd"].get("StepOptions") or {}).get("NextAttemptDelaySeconds")
-            if d != max(1, c["delay"]):
-                run.v("C12", "retry_delay_mismatch", "step", f"{p}: strategy decided delay {c['delay']}, RETRY record carries {d}")
-        if len(retry_recs) > len(decided):
-            run.v("C12", "retry_without_decision", "step", f"{p}: {len(retry_recs)} RETRY records but the strategy asked for {len(decided)}")
+            if not prev or not prev[-1]["retry"]:
+                run.v("C12", "retry_without_decision", "step", f"{p}: a RETRY record was accepted although the strategy was not consulted / declined just before")
+            elif d != max(1, prev[-1]["delay"]):
+                run.v("C12", "retry_delay_mismatch", "step", f"{p}: strategy decided delay {prev[-1]['delay']}, RETRY record carries {d}")
         for e in retry_recs:
             d = (e["upd"].get("StepOptions") or {}).get("NextAttemptDelaySeconds")
             if not isinstance(d, int) or d < 1:
@@ -382,6 +382,12 @@ def mon_c12(run, case, stmts):
                 continue
             if n != want:
                 run.v("C12", "wrong_number_of_attempts", "step", f"{p}: function ran {n} times, expected min(failures+1, max_attempts) = {want}")
+    # a retry is durably scheduled before the suspension (mirrors the park check for plain steps)
+    for v in list(run.violations):
+        if v["property"] == "C07" and v["kind"] == "suspended_on_unarmed_operation" and v["site"].startswith("STEP"):
+            pth = v["detail"].split(":", 1)[0]
+            if stmts.get(pth, {}).get("op") == "step":
+                run.v("C12", "suspended_before_retry_recorded", v["site"], v["detail"])
     # an attempt n+1 is entered only after RETRY n was accepted and its timer fired
     for e in run.entries:
         if e["kind"] != "step":
@@ -535,6 +541,14 @@ def mon_c14(run, case, stmts):
                         run.v("C14", "invoke_error_altered", st, f"{o['path']}: raised error type {o.get('etype')!r}, recorded {err.get('ErrorType')!r}")
                 else:
                     run.v("C14", "invoke_result_while_outstanding", str(st), f"{o['path']}: invoke delivered {_fmt(o)} while the call is {st}")
+    # an operation the invocation was *handed* as completed must not be treated as still outstanding
+    for o in run.obs:
+        if o["out"] == "suspend" and o["kind"] in ("callback_result", "invoke"):
+            oid = b.by_path.get(o["path"])
+            st0 = getattr(b, "inv_start_status", {}).get(o["inv"], {}).get(oid)
+            if st0 in TERMINAL:
+                run.v("C14", "suspended_although_completed", f"{o['kind']}:{st0}",
+                      f"{o['path']}: invocation {o['inv']} was handed the operation as {st0} but the call suspended as if it were outstanding")
     # invoke: exactly one START carrying payload / function / tenant
     for p, s in stmts.items():
         if s["op"] != "invoke":
